@@ -153,8 +153,10 @@ func jsonAddKeyElements(s Entry, dict map[string]any) {
 	// retrieve the parent schema, we need to extract the key names
 	// values are the tree level names
 	parentSchema, levelsUp := s.GetFirstAncestorWithSchema()
-	// from the parent we get the keys as slice
+	// from the parent we get the keys as slice, the key levels of
+	// the tree are in the alphabetical order of the key names
 	schemaKeys := parentSchema.GetSchemaKeys()
+	slices.Sort(schemaKeys)
 	var treeElem Entry = s
 	// the keys do match the levels up in the tree in reverse order
 	// hence we init i with levelUp and count down
